@@ -166,6 +166,8 @@ class SizeFilterPair(object):
 
 @oracle('py_stringsimjoin.filter.prefix_filter.PrefixFilter.filter_pair')
 class PrefixFilterPair(object):
+    which = 'prefix'
+
     def inputs(self, case, rng, model, tier):
         for _ in range(3000 if tier != 'thorough' else 30000):
             l, r = gen_strings(rng, 2)
@@ -174,8 +176,10 @@ class PrefixFilterPair(object):
     def check(self, case, a):
         from py_stringmatching import WhitespaceTokenizer
         from py_stringsimjoin.filter.prefix_filter import PrefixFilter
+        from py_stringsimjoin.filter.position_filter import PositionFilter
         M = measure_of(case)
-        f = PrefixFilter(WhitespaceTokenizer(return_set=True), M, a['t'], a['allow_empty'], a['allow_missing'])
+        cls = PrefixFilter if self.which == 'prefix' else PositionFilter
+        f = cls(WhitespaceTokenizer(return_set=True), M, a['t'], a['allow_empty'], a['allow_missing'])
         got = f.filter_pair(a['l'], a['r'])
         if miss(a['l']) or miss(a['r']):
             want = not a['allow_missing']
@@ -191,6 +195,8 @@ class PrefixFilterPair(object):
         return None
 
 
+oracle('py_stringsimjoin.filter.position_filter.PositionFilter.filter_pair')(
+    type('PositionFilterPair', (PrefixFilterPair,), {'which': 'position'}))
 alias('py_stringsimjoin.utils.token_ordering.gen_token_ordering_for_lists', 'py_stringsimjoin.filter.prefix_filter.PrefixFilter.filter_pair')
 
 
